@@ -258,10 +258,12 @@ StartFunc ==
     /\ UNCHANGED viol
 
 (* all declarations of a function at once: one alignment column, the widest type decides *)
+(* the size of a declared array: a constant, a macro, or a constant expression over character constants *)
+ArraySize(n) == IF n % 3 = 1 THEN <<N2>> ELSE IF n % 3 = 2 THEN <<C3, L(" - ", 3), C3, L(" + ", 3), N1>> ELSE <<Slot("m", 4, 55)>>
 DeclLine(t, wMax, st, w, n, arr) ==
     Line("decl", "IsVarDeclaration",
          <<TAB1, TyItem(t)>> \o AlignTabs(wMax, Types[t].w) \o Stars(st) \o <<Slot("v", w, 10 + n)>>
-         \o (IF arr THEN <<L("[", 1), N2, L("]", 1)>> ELSE <<>>) \o <<L(";", 1)>>)
+         \o (IF arr THEN <<L("[", 1)>> \o ArraySize(n) \o <<L("]", 1)>> ELSE <<>>) \o <<L(";", 1)>>)
 Decls ==
     /\ phase = "decls"
     /\ \E n \in (IF Sim THEN Pick(0..5) ELSE {0, 2}) :
